@@ -23,6 +23,20 @@ from ..extract import (HEADER, ExtractError, Tr, ast_dump, body_of, if_cond, kid
 
 NAME = "Rpc"
 
+# clang node id of an `if` condition -> name under which that site appears in this file's output (additive registry
+# for vlib/gen/rpcskel.py, so that the statement skeletons name an `if` after the very condition inspected here):
+#   typeIsResponse / typeIsRequest / typeIsError  the chain of `typeSwitch`;  respFound  `if (it != outstandings_.end())`;
+#   respCompletes  `if (out.response)`;  respParses;  respHasClosure  `if (out.done)` around Run();
+#   hasServices / serviceFound / methodFound / requestParses  the arguments of `requestDecision`;
+#   connUp  `if (conn->connected())` of RpcServer::onConnection.
+SITES = {}
+
+
+def site(cond, name):
+    """register a condition node (as it hangs under its IfStmt, and stripped)"""
+    SITES[cond.get("id")] = name
+    SITES[strip(cond).get("id")] = name
+
 
 # ----------------------------------------------------------------------------- helpers
 def callee_name(n):
@@ -158,6 +172,7 @@ def b(v):
 
 # ----------------------------------------------------------------------------- the engine
 def generate():
+    SITES.clear()
     gen = os.path.join(BUILD, "gen-t1")
     with flock("protoc-t1"):
         try:
@@ -244,6 +259,7 @@ def generate():
     if len(top) != 1:
         raise ExtractError("onRpcMessage: expected one top-level if / else-if chain")
     chain, node = [], top[0]
+    chain_conds = []
     while node is not None:
         ks = kids(node)
         c = strip(ks[0])
@@ -253,6 +269,7 @@ def generate():
         if not is_message_field(l, "type") or ref_name(r) not in mt:
             raise ExtractError("onRpcMessage: a branch condition is not `message.type() == X`")
         chain.append((ref_name(r), ks[1]))
+        chain_conds.append(ks[0])
         node = ks[2] if len(ks) > 2 else None
         if node is not None and node.get("kind") != "IfStmt":
             raise ExtractError("onRpcMessage: trailing else that is not an else-if")
@@ -276,6 +293,8 @@ def generate():
     out.append("def typeSwitch (t : MessageType) : Branch :=\n  %s .none\n" % " ".join(
         "if t = .%s then .%s else" % (nm, role[nm]) for nm in names))
     comp_of = dict((role[nm], comp) for nm, comp in chain)
+    for (nm, _), c in zip(chain, chain_conds):
+        site(c, "typeIs" + role[nm].capitalize())
 
     # ---------------------------------------------------------------- RESPONSE branch
     rc = comp_of["response"]
@@ -306,6 +325,7 @@ def generate():
     if len(found_ifs) != 1 or len(kids(found_ifs[0])) != 2:
         raise ExtractError("RESPONSE branch: no single `if (it != outstandings_.end())` without else")
     fthen = kids(found_ifs[0])[1]
+    site(if_cond(found_ifs[0]), "respFound")
     takes = False
     for n in walk(fthen):
         if n.get("kind") == "CXXOperatorCallExpr":
@@ -333,6 +353,7 @@ def generate():
     if len(guards) != 1 or len(kids(guards[0])) != 2:
         raise ExtractError("RESPONSE branch: no single `if (out.response)` without else at branch level")
     g = kids(guards[0])[1]
+    site(if_cond(guards[0]), "respCompletes")
     if scope is not None and preorder_index(rc, guards[0]) < preorder_index(rc, scope):
         raise ExtractError("RESPONSE branch: completion precedes the look-up")
     runs = [c for c in member_calls(rc, "Run")]
@@ -348,12 +369,16 @@ def generate():
         # every Run is guarded by `if (out.done)`
         if not any(i.get("kind") == "IfStmt" and ref_name(if_cond(i)) == "out.done" and contains(kids(i)[1], r) for i in walk(g)):
             raise ExtractError("RESPONSE branch: Run() not guarded by `if (out.done)`")
+        for i in walk(g):
+            if i.get("kind") == "IfStmt" and ref_name(if_cond(i)) == "out.done" and contains(kids(i)[1], r):
+                site(if_cond(i), "respHasClosure")
     parses = member_calls(g, "ParseFromString")
     if len(parses) != 1 or ref_name(callee_base(parses[0])) != "out.response" or not is_message_field(kids(parses[0])[1], "response"):
         raise ExtractError("RESPONSE branch: expected one out.response->ParseFromString(message.response())")
     pif = [i for i in walk(g) if i.get("kind") == "IfStmt" and contains(kids(i)[1], parses[0])]
     if len(pif) != 1:
         raise ExtractError("RESPONSE branch: the parse is not under exactly one `if`")
+    site(if_cond(pif[0]), "respParses")
     out.append(prop_def("respParses", [("hasResponse", "Bool"), ("hasError", "Bool")], unparen(Tr(sym).expr(if_cond(pif[0]))),
                         "RESPONSE branch: the registered response object is parsed from the payload"))
     if runs and preorder_index(g, parses[0]) > min(preorder_index(g, r) for r in runs):
@@ -373,7 +398,12 @@ def generate():
         raise ExtractError("REQUEST branch: `error` does not start as an ErrorCode constant")
     facts = {"dispatch_id": set(), "reply_id": set()}
 
-    def cond_sym(c):
+    def cond_sym(c0):
+        nm = cond_sym0(c0)
+        site(c0, nm)
+        return nm
+
+    def cond_sym0(c):
         c = strip(c)
         if c.get("kind") == "ImplicitCastExpr" and c.get("castKind") == "PointerToBoolean":
             nm = ref_name(kids(c)[0])
@@ -533,6 +563,7 @@ def generate():
     if len(ifs) != 1 or len(kids(ifs[0])) != 3:
         raise ExtractError("RpcServer::onConnection: no single if (conn->connected()) ... else ...")
     up, down = kids(ifs[0])[1], kids(ifs[0])[2]
+    site(if_cond(ifs[0]), "connUp")
     news = [n for n in walk(up) if n.get("kind") == "CXXNewExpr" and "RpcChannel" in n.get("type", {}).get("qualType", "")]
     per_up = len(news) == 1 and any(ref_name(a) == "conn" for x in walk(news[0]) if x.get("kind") == "CXXConstructExpr" for a in kids(x))
     chv = next((v["name"] for v in var_decls(up) if news and contains(v, news[0])), None)
